@@ -124,6 +124,13 @@ class Contract(object):
     def apply(self, ex, vals, line):
         if getattr(ex, "field", None) is not None and getattr(self, "field_apply", None) is not None:
             return self.field_apply(ex, ex.field, vals, line)
+        # completeness hints (round-trip lemmas used as contracts): on an input equal to a hinted encoding the decoder
+        # returns the hinted value and does not raise - justified by the proved round-trip lemma named in the hint
+        for (pname, inp, res, lemma_name) in getattr(ex, "complete_hints", {}).get(self.qual, []):
+            from .sym import beq as _beq
+            if ex.branch(_beq(vals[pname], inp)):
+                ex.assumptions.add("completeness of %s on spec encodings: round-trip lemma %s" % (self.short, lemma_name))
+                return res
         env = dict(vals)
         caller = ex.cur_func
         for i, r in enumerate(self.requires_):
